@@ -3,6 +3,7 @@
 
 pub mod bigmodel;
 pub mod engine;
+pub mod fuzzentry;
 pub mod gens;
 pub mod ggmx;
 pub mod layout;
